@@ -609,15 +609,16 @@ impl DefaultFunction {
                 let arg2 = args[1].unwrap_integer()?;
                 let arg3 = args[2].unwrap_byte_string()?;
 
+                // Integers beyond usize skip / take the whole byte string.
                 let skip: usize = if arg1.lt(&0.into()) {
                     0
                 } else {
-                    arg1.try_into().unwrap()
+                    arg1.to_usize().unwrap_or(usize::MAX)
                 };
                 let take: usize = if arg2.lt(&0.into()) {
                     0
                 } else {
-                    arg2.try_into().unwrap()
+                    arg2.to_usize().unwrap_or(usize::MAX)
                 };
 
                 let ret: Vec<u8> = arg3.iter().skip(skip).take(take).cloned().collect();
@@ -637,7 +638,8 @@ impl DefaultFunction {
                 let arg1 = args[0].unwrap_byte_string()?;
                 let arg2 = args[1].unwrap_integer()?;
 
-                let index: i128 = arg2.try_into().unwrap();
+                // An index that does not even fit an i128 is out of bounds.
+                let index: i128 = arg2.try_into().unwrap_or(-1);
 
                 if 0 <= index && index < arg1.len() as i128 {
                     let ret = arg1[index as usize];
@@ -942,7 +944,14 @@ impl DefaultFunction {
                     })
                     .collect();
 
-                let i: u64 = i.try_into().unwrap();
+                // Constructor tags are limited to what PlutusData can represent.
+                let Ok(i) = u64::try_from(i) else {
+                    return Err(if i.is_negative() {
+                        Error::OutsideNaturalBounds(i.clone())
+                    } else {
+                        Error::OverflowError
+                    });
+                };
 
                 let constr_data = Data::constr(i, data_list);
 
